@@ -1,4 +1,3 @@
-use std::cmp::max;
 use std::fmt;
 
 use crate::common::position::{CaretPos, Position};
@@ -11,15 +10,7 @@ pub struct Lex {
 
 impl Lex {
     pub fn new(start: CaretPos, token: Token) -> Self {
-        let end = if let Token::Str(_str, _) = &token {
-            start.offset_line(max((_str.lines().count() as i32 - 1) as usize, 0))
-        } else if let Token::DocStr(_str) = &token {
-            start.offset_line(max((_str.lines().count() as i32 - 1) as usize, 0))
-        } else {
-            start
-        };
-
-        let end = end.offset_pos(token.clone().width());
+        let end = start.advance_over(&token.to_string());
         let pos = Position { start, end };
         Lex { pos, token }
     }
